@@ -115,12 +115,23 @@ class Agg(object):
 
 
 def run_one(mod, case):
-    """Run one case; any exception of the harness itself is a harness error."""
+    """Run one case.  On the ASan flavour every report of the sanitizer written while the case ran becomes a
+    violation keyed by error kind and the top cvxopt frame (function), e.g. asan:heap-buffer-overflow:READ:sparse.c:spmatrix_subscr."""
+    from . import asan
+    use_asan = asan.active()
+    if use_asan:
+        asan.begin()
     try:
         r = mod.run(case)
     except MemoryError:
         r = {'viol': [{'key': 'harness:MemoryError', 'msg': 'MemoryError in harness/run'}]}
-    return r or {}
+    r = r or {}
+    if use_asan:
+        for e in asan.errors():
+            r.setdefault('viol', []).append({
+                'key': 'asan:%s:%s:%s' % (e['kind'], e['access'], e['where']),
+                'msg': 'AddressSanitizer: %s (%s) in %s line %s' % (e['kind'], e['access'], e['where'], e['line'])})
+    return r
 
 
 def _worker(mod, tier, seed, flavour, k, nw, skip, journal, outpath, maxviol):
